@@ -95,6 +95,12 @@ def run_impl(kind, method, ops, maxline=65536):
             for k, v in p.trails.items():
                 out.append("trail %s %s" % (lat(k), lat(v)))
         out.append("left %s" % hx(msg))
+        if kind == "rsp" and p.evented:
+            # an event-stream response: what the Respondent shows of its event source
+            out.append("sse retry=%d leid=%s" % (p.retry, "N" if p.leid is None else hx(p.leid.encode("utf-8"))))
+            for e in p.events:
+                u = lambda x: "N" if x is None else hx(x.encode("utf-8"))
+                out.append("ev %s %s %s" % (u(e["id"]), u(e["name"]), u(e["data"])))
         return out
     finally:
         httping.MAX_LINE_SIZE = old
@@ -269,11 +275,13 @@ class CHECK(core.Check):
                "the tree checked is /repo with fixes D19-parseline-earliest-eol, D16-parseleader-colon, "
                "D29a-chunk-ext-unhashable, D29b-respondent-100-continue applied, D18-parsemessage-valueerror, "
                "D29c-parsemessage-reset-parms-trails applied (all committed in /repo)"]
-    PARTIAL = ["the theorems take as hypotheses what the parser's own line functions read in each line (ReqHead, RspHead, "
-               "Chunk.wf: parseRequestLine/parseStatusLine, headerLine folded over the header lines, chunkLine); "
-               "C29_header_ows, C29_request_line and C29_chunk_size_line discharge them for canonically written header "
-               "lines, request lines and hexadecimal chunk sizes; status lines and chunk extensions are discharged by "
-               "evaluation in the examples only",
+    PARTIAL = ["the shape theorems (C29_request_fixed_length … C29_split_independent) take as hypotheses what the parser's "
+               "own line functions read in each line (ReqHead, RspHead, Chunk.wf); C29_canonical_message_split_independent "
+               "has none: for canonically written requests / responses (origin-form target, HTTP/1.0 or 1.1, three-digit "
+               "status other than 1xx/204/304, framing header first, other headers not touching framing or content type, "
+               "Content-Length or chunked with extensions and trailers) every condition is about the bytes; canonical "
+               "messages with absolute-form targets, read-until-close bodies, 100-Continue prefaces or a Content-Type "
+               "header are covered only by the shape theorems",
                "lines are CRLF terminated, contain no bare CR/LF and are shorter than MAX_LINE_SIZE (at exactly "
                "MAX_LINE_SIZE bytes + CR the code's LineTooLong test depends on whether the LF has arrived)",
                "histories of a reused parser (close / makeParser / idle parse in the orders Patron and Valet produce) are "
@@ -292,7 +300,10 @@ class CHECK(core.Check):
                   "bytes after the message stay in the buffer; any two splits of such a stream give the same complete "
                   "parser state (C29_split_independent); header lines are read the same with or without white space "
                   "after the colon (C29_header_ows); request lines are read as their tokens (C29_request_line), hexadecimal "
-                  "chunk sizes as their value (C29_chunk_size_line). All of this holds from any fresh parser state, in "
+                  "chunk sizes as their value with or without extensions (C29_chunk_size_line, C29_chunk_ext), status lines "
+                  "as (version, code, reason words) for any reason bytes (C29_status_line); composed: canonically written "
+                  "messages are parsed independently of the split with no hypothesis about what any parser function "
+                  "returns (C29_canonical_message_split_independent). All of this holds from any fresh parser state, in "
                   "particular for the next message on a reused parser (C29_reused_parser_is_fresh, "
                   "C29_next_message_split_independent).")
     LEVEL_NOTE = ("Trusted: Lean kernel; axioms propext, Classical.choice, Quot.sound; the hand transcription of "
@@ -335,7 +346,7 @@ class CHECK(core.Check):
         if kind == "req":
             first = stream.split(b"\n", 1)[0]
             return b"//" in first and any(c >= 128 or c in b"[]" for c in first)
-        return b"event-stream" in stream.lower()
+        return False          # event-stream responses are in the model now
 
     FIXED = [
         # (kind, method, stream, close, expect)
